@@ -322,6 +322,41 @@ func repetitionSeeds() []seed {
 			add(fmt.Sprintf("cr3-20000-preview-boxes-of-%d-image-bytes", len(img)), "cr3", gen.EncodeBoxes(top).B)
 		}
 	}
+	{ // a TIFF whose root directory points at 84 Exif directories of 41 time-zone offset tags each, all offsets different
+		// (the unit is one 12-byte entry and its 7-byte value; whatever is kept per distinct value must stay small)
+		le := binary.LittleEndian
+		const nDirs, perDir = 84, 41
+		b := []byte{'I', 'I', 42, 0, 8, 0, 0, 0}
+		put16 := func(v int) { b = le.AppendUint16(b, uint16(v)) }
+		put32 := func(v int) { b = le.AppendUint32(b, uint32(v)) }
+		dirSize := 2 + perDir*12 + 4 + perDir*7
+		first := 8 + 2 + nDirs*12 + 4
+		put16(nDirs)
+		for i := 0; i < nDirs; i++ {
+			put16(0x8769)
+			put16(4)
+			put32(1)
+			put32(first + i*dirSize)
+		}
+		put32(0)
+		k := 0
+		for i := 0; i < nDirs; i++ {
+			start := len(b)
+			put16(perDir)
+			for j := 0; j < perDir; j++ {
+				put16([]int{0x9010, 0x9011, 0x9012}[j%3])
+				put16(2)
+				put32(7)
+				put32(start + 2 + perDir*12 + 4 + j*7)
+			}
+			put32(0)
+			for j := 0; j < perDir; j++ {
+				b = append(b, fmt.Sprintf("%c%02d:%02d\x00", "+-"[k%2], (k/2)%100, (k/200)%60)...)
+				k++
+			}
+		}
+		add("tiff-3444-different-time-zone-offsets", "tiff", b)
+	}
 	{ // XMP packets with thousands of items in one list, thousands of lists, thousands of attributes
 		head := `<x:xmpmeta xmlns:x="adobe:ns:meta/"><rdf:RDF xmlns:rdf="http://www.w3.org/1999/02/22-rdf-syntax-ns#"><rdf:Description rdf:about="" xmlns:dc="http://purl.org/dc/elements/1.1/" xmlns:xmp="http://ns.adobe.com/xap/1.0/" xmlns:tiff="http://ns.adobe.com/tiff/1.0/"`
 		tail := `</rdf:Description></rdf:RDF></x:xmpmeta>`
